@@ -1,8 +1,10 @@
 """C09 — FFT propagation agrees with DFT propagation at the reported wavelength; scratch space is transparent.
 
-Tie: Model/PropagateFft.lean (hand model of _fft_shape, guards, scratch zero-and-insert, util.pad, _fft2 by the
-documented contracts of np.fft) run at Float and compared with the real `lentil.propagate_fft`; index kernels
-Gen/FieldIdx (insert) and Gen/Extent regenerated from the repository.
+Tie: Gen/FftScratch.lean (scratch regions, _has_tilt fold, _fft_shape call site and reported wavelengths, both shape branches and
+guards, scratch guard, metadata hand-over, scratch_shape's call, the _fft2 composition), Gen/PropagateMeta.lean (_dft_alpha), Gen/Util.lean
+(util.pad index block), Gen/FieldIdx (insert) and Gen/Extent are regenerated from the repository and consumed by Model/PropagateFft.lean;
+hand-written there: the plumbing between them and np.fft.fft2 / fftshift / ifftshift / np.round / np.min by their documented contracts.
+The model runs at Float and is compared with the real `lentil.propagate_fft`.
 Oracle (real code only): propagate_fft versus propagate_dft of the same fields at the reported wavelength; scratch
 exact / larger / dirty / left over from a previous call versus no scratch; refusals."""
 import numpy as np
@@ -45,7 +47,7 @@ UNPROVEN = ['float (non-integer) oversample: outside the model; explicit shapes 
 ASSUMPTIONS = ['the wavefront has a plane type (pupil/image): an untyped wavefront ends in TypeError from _propagate_ptype before the shape guard (C08 models it; not an outcome of the C09 model, not generated)',
                'scratch buffers are complex128 arrays (contiguous or strided views): a complex64 / real buffer would store the padded field at lower precision or drop its '
                'imaginary part, so "scratch transparent" is only claimed for buffers of the working dtype; such buffers are not generated',
-               'pupil (wavefront.shape) no larger than the FFT grid; isotropic dx*du for the FFT = DFT clause; integer oversample >= 1 in model and '
+               'pupil (wavefront.shape) no larger than the FFT grid; for the FFT = DFT clause dx*du is isotropic or the per-axis grids agree on the wavelength (S0*dx0*du0 = S1*dx1*du1, e.g. non-square grids 20x40; otherwise the open known finding); integer oversample >= 1 in model and '
                'theorems (float oversample: oracle only, shape=None works, explicit shapes are an open known finding)']
 
 WL, Z = P.WL, P.Z
